@@ -142,60 +142,69 @@ class CosParity(FunctionContract):
         return (not np.allclose(lhs, rhs, rtol=1e-12, atol=1e-10), {"strikes": K.tolist(), "call-put": np.asarray(lhs).tolist(), "df*(fwd-K)": rhs.tolist()})
 
 
-class CosPutWiring(FunctionContract):
-    """COSPricer.put / digital (real bodies; _pricing_formula recorded): the series is evaluated at x = log(spot/strike) on the
-    cumulant interval [a, b] with the put coefficients u_put(k, a, b) (result scaled by the strike), resp. the digital
-    coefficients 2/(b-a) psi(k, a, b, 0, b)."""
+class CosPutWiring(Lemma):
+    """COSPricer.put / digital (real constructor and bodies; _pricing_formula recorded), called for TWO maturities in a row on
+    the same pricer: each series is evaluated at x = log(spot/strike) on the cumulant interval [a, b] OF ITS OWN maturity with
+    the put coefficients u_put(k, a, b) (result scaled by the strike), resp. the digital coefficients 2/(b-a) psi(k, a, b, 0, b)."""
     prop = "C18"
     cases = ("put", "digital")
-    name = "COSPricer.put/digital"
 
-    def make_unit(self, case, interp_factory):
-        self.target = COS + "." + case
-        return super().make_unit(case, interp_factory)
+    def __init__(self):
+        self.name = "property:cos-put-and-digital-wiring"
 
-    def configure(self, interp):
-        from pyvc import ctx
-
-        def pf(it, f, b):
-            g = ctx.PATH.ghost
-            g.setdefault("pf", []).append(dict(b))
-            return g["series"]
-        interp.hooks[COS + "._pricing_formula"] = pf
-        interp.hooks[COS + "._interval_a_b"] = lambda it, f, b: (ctx.PATH.ghost["a"], ctx.PATH.ghost["b"])
-
-    def setup(self, vc, case):
-        spot, K, t, a, w, series = vc.real("spot"), vc.real("strike"), vc.real("t"), vc.real("a"), vc.real("w"), vc.real("series")
-        vc.assume(And(spot > 0, K > 0, t > 0, a < 0, w > 0, a + w > 0))
-        vc.ghost.update(spot=spot, K=K, t=t, a=a, b=a + w, series=series, case=case)
-        model = vc.obj("rpylib.model.levymodel.exponentialoflevymodel:ExponentialOfLevyModel", spot=spot)
-        pr = vc.obj(COS, model=model, n=4, l=10)
-        return dict(self=pr, strikes=K, time=t)
-
-    def ensures(self, result, **kw):
+    def prove(self, vc, case):
         from pyvc import ctx
         from pyvc.lib import m_log
-        g = ctx.PATH.ghost
-        calls = g.get("pf", [])
-        out = {"one-series-evaluation": len(calls) == 1}
-        if len(calls) != 1:
-            return out
-        c = calls[0]
-        it = ctx.INTERP
-        ks = np.arange(4)
-        if g["case"] == "put":
-            want = it.call(it.get_function(COS + ".u_put"), [ks, g["a"], g["b"]], {})
-            out["result-is-strike-times-the-series"] = result == g["K"] * g["series"]
-        else:
-            want = it.call(it.get_function(COS + ".psi"), [ks, g["a"], g["b"], 0.0, g["b"]], {})
-            want = np.array([2 / (g["b"] - g["a"]) * v for v in np.ravel(np.asarray(want, dtype=object))], dtype=object)
-            out["result-is-the-series"] = result == g["series"]
-        got = np.ravel(np.asarray(c["vk_coefficients"], dtype=object))
-        want = np.ravel(np.asarray(want, dtype=object))
-        out["series-on-the-cumulant-interval-at-the-requested-maturity"] = And(c["a"] == g["a"], c["b"] == g["b"], c["time"] == g["t"])
-        out["evaluated-at-log(spot/strike)"] = c["x"] == m_log(g["spot"] / g["K"])
-        out["payoff-coefficients"] = (len(got) == len(want)) and And(*[x == y for x, y in zip(got, want)])
-        return out
+        nm = f"{self.name}[{case}]"
+        it = vc.interp
+        spot, K = vc.real("spot"), vc.real("strike")
+        ts = vc.reals("t", 2)
+        aa = vc.reals("a", 2)
+        ww = vc.reals("w", 2)
+        series = vc.reals("series", 2)
+        vc.assume(And(spot > 0, K > 0, ts[0] > 0, ts[1] > ts[0], *[And(a < 0, w > 0, a + w > 0) for a, w in zip(aa, ww)]))
+        calls = []
+        it.hooks[COS + "._pricing_formula"] = lambda it_, f, b: calls.append(dict(b)) or series[len(calls) - 1]
+
+        def interval(it_, f, b):
+            t = b["t"]
+            k = 0 if (t is ts[0]) else 1
+            return aa[k], aa[k] + ww[k]
+        it.hooks[COS + "._interval_a_b"] = interval
+        model = vc.obj("rpylib.model.levymodel.exponentialoflevymodel:ExponentialOfLevyModel", spot=spot, log_characteristic_function=None)
+        pr = vc.new(COS, model, 4, 10)
+        for j in range(2):
+            res = vc.method(pr, case, K, ts[j])
+            a, b = aa[j], aa[j] + ww[j]
+            tag = f"{nm}::call{j + 1}:"
+            vc.check(tag + "one-series-evaluation", len(calls) == j + 1)
+            if len(calls) != j + 1:
+                return
+            c = calls[j]
+            ks = np.arange(4)
+            if case == "put":
+                want = it.call(it.get_function(COS + ".u_put"), [ks, a, b], {})
+                vc.check(tag + "result-is-strike-times-the-series", res == K * series[j])
+            else:
+                want = it.call(it.get_function(COS + ".psi"), [ks, a, b, 0.0, b], {})
+                want = np.array([2 / (b - a) * v for v in np.ravel(np.asarray(want, dtype=object))], dtype=object)
+                vc.check(tag + "result-is-the-series", res == series[j])
+            got = np.ravel(np.asarray(c["vk_coefficients"], dtype=object))
+            want = np.ravel(np.asarray(want, dtype=object))
+            vc.check(tag + "series-on-the-cumulant-interval-of-this-maturity", And(c["a"] == a, c["b"] == b, c["time"] == ts[j]))
+            vc.check(tag + "evaluated-at-log(spot/strike)", c["x"] == m_log(spot / K))
+            vc.check(tag + "payoff-coefficients-of-this-interval", (len(got) == len(want)) and And(*[x == y for x, y in zip(got, want)]))
+
+    def replay(self, model, clause, case):
+        from contracts import battery
+        from rpylib.numerical.cosmethod import COSPricer
+        m = battery.models(("hem",))["hem"]
+        K = np.array([90.0, 100.0, 115.0])
+        shared = COSPricer(m)
+        f = (lambda pr, T: pr.put(K, T)) if case == "put" else (lambda pr, T: pr.digital(K, T))
+        first, second = f(shared, 0.25), f(shared, 2.0)
+        fresh = f(COSPricer(m), 2.0)
+        return (not np.allclose(second, fresh, rtol=1e-12, atol=1e-12), {"strikes": K.tolist(), "second_maturity_on_a_reused_pricer": np.asarray(second).tolist(), "fresh_pricer": np.asarray(fresh).tolist()})
 
 
 class BlackScholesClosedForm(Lemma):
@@ -255,23 +264,33 @@ class BlackScholesClosedForm(Lemma):
 
 
 class BlackScholesDegenerate(Lemma):
-    """CFBlackScholes degenerate branch (sigma, spot or maturity below eps; here maturity = 0): intrinsic values, so
-    call - put = df (fwd - K) and both are non-negative (z3 over the real bodies)."""
+    """CFBlackScholes degenerate branch (real bodies, z3): sigma = 0 with any maturity, and maturity = 0 with any sigma:
+    intrinsic values of the FORWARD, so call - put = df (fwd - K), both non-negative, at most one of them positive."""
     prop = "C18"
+    cases = ("sigma=0", "maturity=0")
 
     def __init__(self):
         self.name = "property:black-scholes-degenerate-branch"
 
     def prove(self, vc, case):
-        nm = self.name
-        spot, r, d, sg, K = vc.real("spot"), vc.real("r"), vc.real("d"), vc.real("sigma"), vc.real("K")
-        vc.assume(And(spot > 0, r >= 0, d >= 0, sg >= 0, K > 0))
+        from pyvc.lib import m_exp
+        nm = f"{self.name}[{case}]"
+        spot, r, d, K = vc.real("spot"), vc.real("r"), vc.real("d"), vc.real("K")
+        vc.assume(And(spot > 0, r >= 0, d >= 0, K > 0))
+        if case == "sigma=0":
+            sg, T = 0.0, vc.real("T")
+            vc.assume(T > 0)
+        else:
+            sg, T = vc.real("sigma"), 0.0
+            vc.assume(sg >= 0)
         par = vc.obj("rpylib.model.levymodel.mixed.blackscholes:BlackScholesParameters", sigma=sg)
         bs = vc.obj("rpylib.model.levymodel.mixed.blackscholes:BlackScholesModel", spot=spot, r=r, d=d, parameters=par)
         cf = vc.obj(CFB, bs_model=bs)
-        c = vc.method(cf, "call", K, 0.0)
-        p = vc.method(cf, "put", K, 0.0)
-        vc.check(nm + "::parity", c - p == spot - K)
+        c = vc.method(cf, "call", K, T)
+        p = vc.method(cf, "put", K, T)
+        df = m_exp(-r * T) if is_sym(T) else 1.0
+        fwd = spot * m_exp((r - d) * T) if is_sym(T) else spot
+        vc.check(nm + "::parity-with-the-forward", c - p == df * (fwd - K))
         vc.check(nm + "::non-negative-intrinsic-values", And(c >= 0, p >= 0, Or(c == 0, p == 0)))
 
 
@@ -474,6 +493,16 @@ class PricerBattery:
                             i = int(np.argmin(low))
                             bad("outer-half-of-the-truncation-range:prices-between-intrinsic-and-discounted-forward",
                                 {**info, "strike": float(Ko[i]), "log_moneyness": float(np.log(m.spot / Ko[i])), "call": float(co[i]), "intrinsic": float(max(df * (fwd - Ko[i]), 0.0))})
+            # one pricer instance reused for several maturities must give what fresh instances give
+            for name, m in models.items():
+                shared = COSPricer(m)
+                K = np.linspace(85.0, 120.0, 8)
+                for T in (0.25, 2.0, 1.0):
+                    ev += 1
+                    d1 = float(np.max(np.abs(np.asarray(shared.call(K, T)) - np.asarray(COSPricer(m).call(K, T)))))
+                    d2 = float(np.max(np.abs(np.asarray(shared.digital(K, T)) - np.asarray(COSPricer(m).digital(K, T)))))
+                    if max(d1, d2) > 1e-10:
+                        bad("reused-pricer-equals-fresh-pricer", {"model": name, "T": T, "max_call_difference": d1, "max_digital_difference": d2})
             # VG against its CGMY parametrisation
             from rpylib.model.utils import create_exponential_of_levy_model as mk
             from rpylib.model.levymodel.levymodel import ModelType
